@@ -5,7 +5,7 @@ import os
 import sys
 
 sys.path.insert(0, os.path.dirname(os.path.dirname(os.path.abspath(__file__))))
-from vlib import build
+from vlib import build, gadata
 from vlib.common import Check, NCPU, main_guard, pmap, run, sanitizer_key
 
 
@@ -16,7 +16,19 @@ def main():
     tot = {"states": 0, "transitions": 0, "traces": 0, "calls": 0}
     samples = []
     per = {}
+    # gA data directories for the gA-focused alphabet: a complete synthetic table, and a copy cut at a line boundary after three E2 rows
+    import shutil
+    gavalid, _ = gadata.make_generator_datasets(chk.seed)
+    gacut = os.path.join(build.cache_root(), "gadata.cut.%d" % chk.seed)
+    rel = "data/dbd_gA/v1.0/Mo100/g0/tab_ocdf.data"
+    if not os.path.exists(os.path.join(gacut, rel)):
+        os.makedirs(os.path.dirname(os.path.join(gacut, rel)), exist_ok=True)
+        L = open(os.path.join(gavalid, rel)).read().split("\n")
+        open(os.path.join(gacut, rel), "w").write("\n".join(L[:8]) + "\n")
     jobs = []
+    for sh in range(4):
+        exe = build.harness("plain", "c09_protocol", ["c09_protocol.cc"])
+        jobs.append(("plain-gA", 9 if quick else 12, 0, exe, sh, 4))
     for variant, depth, exp in plans:
         exe = build.harness(variant, "c09_protocol", ["c09_protocol.cc"])
         nsh = NCPU if variant == "plain" else max(2, NCPU // 4)
@@ -25,9 +37,12 @@ def main():
 
     def one(j):
         variant, depth, exp, exe, sh, nsh = j
-        env = build.lib_env(variant)
+        env = build.lib_env("plain" if variant == "plain-gA" else variant)
         env.pop("BXDECAY0_DBD_GA_DATA_DIR", None)
-        return j + run([exe, str(chk.seed), str(depth), str(exp), str(sh), str(nsh)], timeout=7200, env=env)
+        cmd = [exe, str(chk.seed), str(depth), str(exp), str(sh), str(nsh)]
+        if variant == "plain-gA":
+            cmd += ["1", gacut, gavalid]
+        return j + run(cmd, timeout=7200, env=env)
 
     probes = 0
     seen_keys = set()
@@ -65,7 +80,9 @@ def main():
                 "(state, operation) pair within the depth bound is executed on the real object by replaying the shortest sequence reaching the "
                 "state; after each call: throws <=> model, all getters == model, reset == freshly constructed (getters, and behaviourally: the same partial "
                 "configuration Zn70/0/mode 5 without a window applied to the reset object and to a fresh one gives the same full/window ratio, deviate count "
-                "and first event), failed initialize => still usable",
+                "and first event), failed initialize => still usable; after every successful initialize the object is compared with a FRESH instance given the same "
+                "settings (same ratio, bit-identical events from identical tapes); a second, gA-focused alphabet (9 generator operations + the gA data "
+                "directory in the environment: none / table cut after three rows / complete) is explored two levels deeper",
         "behavioural_reset_probes": probes,
         "per_build": per,
         "exhaustive": True,
